@@ -24,6 +24,17 @@ def register(reg):
   }
   T = 'openhtf/util/timeouts.py'
   c = reg.contract(T, 'PolledTimeout.has_expired', props=()); c.returns('bool').modifies(); c.trusted('wall clock')
+
+  def expiry_is_monotone(ex, st, env, result):
+    # a PolledTimeout that has expired stays expired (time.time() against a fixed deadline): the previous observation on the same
+    # object (syntactically the same reference term) implies the next one
+    import z3 as _z3
+    key = '$expired:%s' % env['self'].t
+    prev = st.ghost.get(key)
+    if prev is not None:
+      st.assume(_z3.Implies(prev.t, result.t))
+    st.ghost[key] = result
+  c.hooks['after_call'] = expiry_is_monotone
   c = reg.contract(T, 'PolledTimeout.remaining_ms', props=()); c.returns('val{none,int,float}').modifies(); c.trusted('wall clock')
   c = reg.contract(T, 'PolledTimeout.from_millis', props=()); c.param('timeout_ms', 'val').returns('ref:PolledTimeout').modifies()
   c.trusted('timeout construction')
